@@ -43,6 +43,11 @@ def get_file_metadata(path, hashes):
     except FileNotFoundError:
         exists = False
         opened = False
+    except ValueError:
+        # embedded NUL or a character that can not be encoded for
+        # the filesystem -- no such file can possibly exist
+        exists = False
+        opened = False
     except OSError as err:
         if err.errno in (errno.ENXIO, errno.EOPNOTSUPP):
             # ENXIO = unconnected device or socket
